@@ -218,6 +218,7 @@ func parseTypeSpec(b *Block) (*TypeSpec, error) {
 // ---------------------------------------------------------------------------
 
 type kernelCtx struct {
+	strictCalls   bool // a re-binding is being tried: the call fingerprint must hold
 	outerFallback bool // binds may resolve to cells of the enclosing function (last resort, see runFunc)
 	w      *World
 	blocks []*Block
@@ -306,7 +307,7 @@ func (kc *kernelCtx) runFunc(b *Block) *Unit {
 			extra = append(extra, lb)
 		}
 	}
-	u3 := kc.tryRebind(u, b, b.Name, typeName, availFor(fn), extra, func(k2 *kernelCtx, nb *Block) *Unit { return k2.runFunc0(nb) })
+	u3 := kc.tryRebind(u, b, b.Name, typeName, availFor(fn), extra, func(k2 *kernelCtx, nb *Block) *Unit { k2.strictCalls = true; return k2.runFunc0(nb) })
 	if !hasBindingErr(u3) {
 		return u3
 	}
@@ -378,8 +379,10 @@ func (kc *kernelCtx) runFunc0(b *Block) *Unit {
 		if cc := b.first("calls"); cc != nil {
 			sameCalls = strings.Join(strings.Fields(cc.Text), " ") == strings.Join(callFingerprint(fn), " ")
 		}
-		if pc := b.first("params"); pc != nil && sameCalls {
-			// and it still has the parameters it had (a renamed parameter is a renaming, not a dropped capture)
+		sameParams := true
+		if pc := b.first("params"); pc != nil {
+			// the closure has the parameters the contract was written for (inserting a function literal shifts the
+			// ordinals of its siblings: $3 is then another callback)
 			var ps []string
 			for _, prm := range fn.Params {
 				ps = append(ps, prm.Name())
@@ -387,11 +390,19 @@ func (kc *kernelCtx) runFunc0(b *Block) *Unit {
 			if len(ps) == 0 {
 				ps = []string{"-"}
 			}
-			sameCalls = strings.Join(strings.Fields(pc.Text), " ") == strings.Join(ps, " ")
+			sameParams = strings.Join(strings.Fields(pc.Text), " ") == strings.Join(ps, " ")
+			if !sameParams {
+				u.Errs = append(u.Errs, fmt.Sprintf("contract %s does not bind: no parameter or captured variable named as its parameters were (%s); the closure of that ordinal has (%s)", b.Name, strings.Join(strings.Fields(pc.Text), " "), strings.Join(ps, " ")))
+			}
 		} else {
 			sameCalls = false
 		}
-		if top := outermost(fn); top != fn && kc.outerFallback && sameCalls {
+		if (kc.strictCalls || kc.outerFallback) && b.first("calls") != nil && !sameCalls {
+			// the contract did not bind as written (a renaming or a dropped capture is being tried): the closure must
+			// at least still call what it called
+			u.Errs = append(u.Errs, fmt.Sprintf("contract %s does not bind: the closure of that ordinal calls other things than the one the contract was written for", b.Name))
+		}
+		if top := outermost(fn); top != fn && kc.outerFallback && sameCalls && sameParams {
 			for n, t := range cellTypes(top) {
 				if !have[n] {
 					have[n] = true
